@@ -173,6 +173,13 @@ var extremePrios = []int{0, 1, -1, 2, -2, math.MaxInt64, math.MinInt64, math.Max
 
 func heapEpisode(r *vrec, rng *rand.Rand, nops int) {
 	q := NewPriorityQueue[int]()
+	if rng.Intn(3) == 0 {
+		// a queue that has been in service for a long time: its insertion counter is about to pass
+		// 2^31 (white box; the order of ties depends on the counter's order only, so the model,
+		// which counts from 0, must still agree)
+		q.insertionCount = math.MaxInt32 - rng.Intn(40)
+		r.stats["heap.aged"]++
+	}
 	r.p("HEAP")
 	next := 1
 	bias := 60
